@@ -194,6 +194,13 @@ func (p *Pool[K, V]) Put(key K, val V) {
 		}
 	}
 
+	// the eviction above may have emptied this key's list and removed it from
+	// the map: put it back before appending to it, otherwise the new entry
+	// lives in a list nothing can find anymore.
+	if p.entries[key] != local {
+		p.entries[key] = local
+	}
+
 	ent := &entry[K, V]{key: key, val: val}
 	local.appendEntry(ent, (*entry[K, V]).localList)
 	p.order.appendEntry(ent, (*entry[K, V]).globalList)
